@@ -28,10 +28,13 @@ MANIFEST = {
     "text": "Proof: literal conversion yields the positional value for every digit string and radix (and exactly the malformed "
             "strings are refused); the transcription of pest's PrecClimber::climb_rec equals the stratified grammar E -> T((+|-)T)*, "
             "T -> F((*|/)F)* on every token list (precedence and left associativity for all lengths); evaluation of + - * / is "
-            "unbounded Int arithmetic with division truncating toward zero. Keccak is an executable Lean definition validated "
+            "unbounded Int arithmetic with division truncating toward zero; TEXT (C08_text): the text of an operand — any sequence of terms "
+            "(literals in four radixes, negative decimals, labels, parenthesised sequences nested to any depth) and operators with blanks "
+            "anywhere the grammar allows — goes through the full pest interpreter over the regenerated grammar and the walk to exactly the "
+            "expression the climber builds, i.e. the stratified-grammar reading. Keccak is an executable Lean definition validated "
             "against vectors, not proved against a standard.",
     "note": "Trusted: Lean kernel; Asm/Parse.lean (expression::parse, parse_radix_str, negative arm), Asm/Eval.lean tied to etk-asm by "
             "the differential run through push32 <expr>; the pest interpreter (Asm/Pest.lean) over the regenerated grammar supplies "
             "the token structure; num-bigint and sha3 are modelled, not verified.",
-    "technique": "Lean 4 proofs (digit induction; climber = stratified grammar; Int arithmetic) + differential correspondence + independent big-integer oracle",
+    "technique": "Lean 4 proofs (digit induction; climber = stratified grammar; Int arithmetic; operand text through the pest interpreter model) + differential correspondence + independent big-integer oracle",
 }
